@@ -15,6 +15,7 @@ import (
 	"encoding/json"
 	"fmt"
 	"go/types"
+	"math/big"
 	"os"
 	"os/exec"
 	"path/filepath"
@@ -39,7 +40,20 @@ func getValues(e *Enc, o *Oblig, terms []string, pins []string) (map[string]stri
 		return map[string]string{}, nil
 	}
 	q := e.smtFor(o, true, nil)
-	q = strings.Replace(q, "(check-sat)\n", strings.Join(pins, "\n")+"\n(check-sat)\n(get-value ("+strings.Join(terms, " ")+"))\n", 1)
+	// Root-heap constants that were first mentioned while building the replay are
+	// declared after the obligation's prefix: carry their declarations (only the
+	// declarations, never later assumptions) into the query.
+	var late []string
+	if o.Prefix < len(e.body) {
+		for _, l := range e.body[o.Prefix:] {
+			if strings.HasPrefix(l, "(declare-const ") || strings.HasPrefix(l, "(declare-fun ") {
+				if name := strings.Fields(l)[1]; !strings.Contains(q, "(declare-const "+name+" ") && !strings.Contains(q, "(declare-fun "+name+" ") {
+					late = append(late, l)
+				}
+			}
+		}
+	}
+	q = strings.Replace(q, "(check-sat)\n", strings.Join(late, "\n")+"\n"+strings.Join(pins, "\n")+"\n(check-sat)\n(get-value ("+strings.Join(terms, " ")+"))\n", 1)
 	f, err := os.CreateTemp("", "gocv-replay-*.smt2")
 	if err != nil {
 		return nil, err
@@ -64,7 +78,8 @@ func getValues(e *Enc, o *Oblig, terms []string, pins []string) (map[string]stri
 			return vals, nil
 		}
 	}
-	return nil, fmt.Errorf("no model values")
+	dbg, _ := exec.Command("z3-new", "-T:20", f.Name()).CombinedOutput()
+	return nil, fmt.Errorf("no model values (solver said: %s)", truncate(strings.TrimSpace(string(dbg)), 400))
 }
 
 // parseGetValue parses ((t1 v1) (t2 v2) ...) in order.
@@ -193,6 +208,9 @@ func (b *goValBuilder) build(t types.Type, term string, depth int) string {
 		switch {
 		case u.Info()&types.IsBoolean != 0, u.Info()&types.IsInteger != 0:
 			v := b.val(term)
+			if u.Info()&types.IsInteger != 0 {
+				v = wrapIntLiteral(v, u)
+			}
 			if _, named := t.(*types.Named); named {
 				return fmt.Sprintf("%s(%s)", b.typeStr(t), v)
 			}
@@ -383,4 +401,32 @@ func discardCall(call string, nres int) string {
 		us[i] = "_"
 	}
 	return strings.Join(us, ", ") + " = " + call
+}
+
+// wrapIntLiteral brings a model value into the range of the Go type: locations the
+// path never reads carry no typing fact and the solver may give them any integer;
+// any in-range value is as good for them.
+func wrapIntLiteral(v string, u *types.Basic) string {
+	n, ok := new(big.Int).SetString(strings.TrimSpace(v), 10)
+	if !ok {
+		return v
+	}
+	bits := 64
+	switch u.Kind() {
+	case types.Int8, types.Uint8:
+		bits = 8
+	case types.Int16, types.Uint16:
+		bits = 16
+	case types.Int32, types.Uint32:
+		bits = 32
+	}
+	mod := new(big.Int).Lsh(big.NewInt(1), uint(bits))
+	n.Mod(n, mod)
+	if u.Info()&types.IsUnsigned == 0 {
+		half := new(big.Int).Rsh(mod, 1)
+		if n.Cmp(half) >= 0 {
+			n.Sub(n, mod)
+		}
+	}
+	return n.String()
 }
